@@ -48,6 +48,15 @@ func (it *interp) input() string { return strings.Join(it.lines, "\n") }
 
 func (it *interp) fail(sig, detail string) { run.IOFail(sig, it.input(), detail) }
 
+// slowFail: a failure that was detected by running into the 8 s timeout; after a few of them the run-loop
+// stream stops (otherwise a broken loop turns every remaining op into a timeout)
+func (it *interp) slowFail(sig, detail string) {
+	slowFails++
+	it.fail(sig, detail)
+}
+
+var slowFails int
+
 func (it *interp) reset(c psh.Conf) {
 	if it.bp != nil {
 		it.bp.Stop()
@@ -360,7 +369,7 @@ func (it *interp) taken(set *sarama.VerifSet) int {
 
 func (it *interp) bpLine(out string) string {
 	if !it.bp.Sync(long) {
-		it.fail("run-loop-stuck", "no progress on input within 8 s")
+		it.slowFail("run-loop-stuck", "no progress on input within 8 s")
 		return "stuck"
 	}
 	armed, _, _, bc := it.bp.Peek()
@@ -370,7 +379,7 @@ func (it *interp) bpLine(out string) string {
 func (it *interp) doBP(t []string) string {
 	it.startBP()
 	if !it.bp.Sync(long) {
-		it.fail("run-loop-stuck", "no progress on input within 8 s")
+		it.slowFail("run-loop-stuck", "no progress on input within 8 s")
 		return "stuck"
 	}
 	switch t[0] {
@@ -379,7 +388,7 @@ func (it *interp) doBP(t []string) string {
 		pm := m.Build(it.topicLens)
 		wo := it.bp.Buffer().WouldOverflow(pm)
 		if !it.bp.Send(pm, long) {
-			it.fail("run-loop-stuck", "message not accepted within 8 s")
+			it.slowFail("run-loop-stuck", "message not accepted within 8 s")
 			return "stuck"
 		}
 		out := "-"
@@ -387,7 +396,7 @@ func (it *interp) doBP(t []string) string {
 			// the loop now sits in waitForSpace until the bridge takes the buffer
 			set := it.bp.Take(long)
 			if set == nil {
-				it.fail("overflowing-buffer-not-handed-over", "nothing on the output within 8 s although the message would overflow")
+				it.slowFail("overflowing-buffer-not-handed-over", "nothing on the output within 8 s although the message would overflow")
 				return "stuck"
 			}
 			out = strconv.Itoa(it.taken(set))
@@ -395,7 +404,7 @@ func (it *interp) doBP(t []string) string {
 		k := tpKey{m.Topic, m.Part}
 		it.bpBuf[k] = append(it.bpBuf[k], m)
 		if !it.bp.Sync(long) {
-			it.fail("run-loop-stuck", "no progress after a message within 8 s")
+			it.slowFail("run-loop-stuck", "no progress after a message within 8 s")
 			return "stuck"
 		}
 		it.checkLimits(it.bp.Buffer(), it.bpBuf, "run loop buffer")
@@ -410,7 +419,7 @@ func (it *interp) doBP(t []string) string {
 			armed, fired, _, _ := it.bp.Peek()
 			if fired || !armed || time.Now().After(deadline) {
 				if armed && !fired {
-					it.fail("flush-timer-never-fired", fmt.Sprintf("Flush.Frequency %d ns, waited 8 s", it.conf.FF))
+					it.slowFail("flush-timer-never-fired", fmt.Sprintf("Flush.Frequency %d ns, waited 8 s", it.conf.FF))
 				}
 				return "fired=" + b2s(fired) + " " + it.bpLine("-")
 			}
@@ -432,7 +441,7 @@ func (it *interp) doBP(t []string) string {
 			out = strconv.Itoa(it.taken(set))
 		} else if want {
 			// property: a buffered message is sent once a trigger fires, without waiting for further input
-			it.fail("buffer-not-offered-though-trigger-fired", fmt.Sprintf("%d messages buffered, timer fired %v, readyToFlush %v, nothing on the output within 8 s", bc, fired, ready))
+			it.slowFail("buffer-not-offered-though-trigger-fired", fmt.Sprintf("%d messages buffered, timer fired %v, readyToFlush %v, nothing on the output within 8 s", bc, fired, ready))
 		}
 		return it.bpLine(out)
 	case "bpdrop":
@@ -452,7 +461,7 @@ func (it *interp) doBP(t []string) string {
 			res.AddTopicPartition(psh.TopicName(kk.t, it.tlen(kk.t)), kk.p, e)
 		}
 		if !it.bp.Respond(f.set, res, long) {
-			it.fail("run-loop-stuck", "response not accepted within 8 s")
+			it.slowFail("run-loop-stuck", "response not accepted within 8 s")
 			return "stuck"
 		}
 		delete(it.bpBuf, k)
@@ -725,7 +734,7 @@ func (g *gen) bpCase(timer bool) {
 	n := g.r.Range(3, 25)
 	retrying := map[tpKey]bool{}
 	timerEmitted := false
-	for i := 0; i < n; i++ {
+	for i := 0; i < n && slowFails < 3; i++ {
 		it.startBP()
 		it.bp.Sync(long)
 		armed, _, _, bc := it.bp.Peek()
@@ -813,10 +822,10 @@ func main() {
 	for i := 0; i < n; i++ {
 		g.setCase()
 	}
-	for i := 0; i < n/12; i++ {
+	for i := 0; i < n/12 && slowFails < 3; i++ {
 		g.bpCase(false)
 	}
-	for i := 0; i < n/60; i++ {
+	for i := 0; i < n/60 && slowFails < 3; i++ {
 		g.bpCase(true)
 	}
 	g.undercount()
